@@ -1375,3 +1375,173 @@ func ruleTableFill(c *Ctx, rule string, names ...string) {
 		}
 	}
 }
+
+// ---- indexspace: slice indices are not sequence coordinates -----------------------
+
+// ruleIndexSpace: a parameter of ForEachKmerOf that is used as a subscript
+// of s.Seq is a slice index, not a position in sequence coordinates (the
+// function does not subtract the sequence's offset). Every call site in the
+// module must therefore pass indices: a value obtained from the sequence's
+// Start()/End() (coordinates) is off by the offset whenever that is non-zero.
+func ruleIndexSpace(c *Ctx, rule string) {
+	fn := c.fn("index/kmerindex", "(*Index).ForEachKmerOf")
+	// parameters that (through the loop counters they initialise or bound) index s.Seq
+	idxParam := map[int]bool{}
+	for _, b := range fn.Blocks {
+		for _, ins := range b.Instrs {
+			ia, ok := ins.(*ssa.IndexAddr)
+			if !ok {
+				continue
+			}
+			if u, ok := ia.X.(*ssa.UnOp); !ok || u.Op != token.MUL {
+				continue
+			} else if fa, ok := u.X.(*ssa.FieldAddr); !ok {
+				continue
+			} else if name, _ := anyFieldName(fa); name != "Seq" {
+				continue
+			}
+			// the counter: a phi seeded from a parameter, and bounded by a parameter
+			if phi, _, ok := linearIn(ia.Index); ok {
+				var walk func(v ssa.Value, d int)
+				seen := map[ssa.Value]bool{}
+				walk = func(v ssa.Value, d int) {
+					if d > 6 || seen[v] {
+						return
+					}
+					seen[v] = true
+					switch x := v.(type) {
+					case *ssa.Parameter:
+						if i := paramIndex(fn, x); i >= 0 {
+							idxParam[i] = true
+						}
+					case *ssa.Phi:
+						for _, e := range x.Edges {
+							walk(e, d+1)
+						}
+					case *ssa.BinOp:
+						walk(x.X, d+1)
+						walk(x.Y, d+1)
+					}
+				}
+				walk(phi, 0)
+				// the loop bound compared with the counter
+				if ifi, ok := phi.Block().Instrs[len(phi.Block().Instrs)-1].(*ssa.If); ok {
+					if bo, ok := ifi.Cond.(*ssa.BinOp); ok {
+						walk(bo.Y, 0)
+					}
+				}
+			}
+		}
+	}
+	// integer parameters only
+	for i := range idxParam {
+		if b, ok := fn.Params[i].Type().Underlying().(*types.Basic); !ok || b.Info()&types.IsInteger == 0 {
+			delete(idxParam, i)
+		}
+	}
+	if len(idxParam) == 0 {
+		c.und(rule, "kmerindex.(*Index).ForEachKmerOf/index-parameters", fn.Pos(), "no parameter of ForEachKmerOf is used to index s.Seq")
+		return
+	}
+	isCoordinate := func(v ssa.Value) string {
+		v = stripConv(v)
+		call, ok := v.(*ssa.Call)
+		if !ok {
+			return ""
+		}
+		name := ""
+		if call.Call.IsInvoke() {
+			name = call.Call.Method.Name()
+		} else if g := call.Call.StaticCallee(); g != nil && g.Signature.Recv() != nil {
+			name = g.Name()
+		}
+		if name == "Start" || name == "End" {
+			return name + "()"
+		}
+		return ""
+	}
+	n := 0
+	for _, pkg := range c.Prog.AllPackages() {
+		if !inModulePkg(pkg) {
+			continue
+		}
+		for _, f := range srcFuncs(pkg) {
+			for _, b := range f.Blocks {
+				for _, ins := range b.Instrs {
+					ci, ok := ins.(ssa.CallInstruction)
+					if !ok || ci.Common().StaticCallee() != fn {
+						continue
+					}
+					for i := range idxParam {
+						if i >= len(ci.Common().Args) {
+							continue
+						}
+						n++
+						c.Funcs[funcName(f)] = true
+						key := fmt.Sprintf("%s/ForEachKmerOf-arg-%s#%d", funcName(f), fn.Params[i].Name(), n)
+						if what := isCoordinate(ci.Common().Args[i]); what != "" {
+							c.bad(rule, key, ins.Pos(), "ForEachKmerOf uses its "+fn.Params[i].Name()+" parameter as a subscript of s.Seq, but this call passes the sequence's "+what+", a position in sequence coordinates: for a sequence with a non-zero offset the first windows are skipped and the scan runs past the end of the letters")
+						} else {
+							c.ok(rule, key, ins.Pos(), "passes a slice index (not a Start()/End() coordinate)")
+						}
+					}
+				}
+			}
+		}
+	}
+	if n == 0 {
+		c.und(rule, "kmerindex/ForEachKmerOf-call-sites", fn.Pos(), "no static call of ForEachKmerOf found")
+	}
+}
+
+func inModulePkg(p *ssa.Package) bool {
+	return p != nil && p.Pkg != nil && (p.Pkg.Path() == modPath || len(p.Pkg.Path()) > len(modPath) && p.Pkg.Path()[:len(modPath)+1] == modPath+"/")
+}
+
+// ---- pooldrain: the buffer parked in the pool each cycle is taken back -----------
+
+// rulePoolDrain: every cycle parks one sort buffer in m.pool that nobody
+// receives during the cycle (the synchronous last write of Finalise, or the
+// exhausted in-memory chunk in Pull). The pool has a small fixed capacity, so
+// the per-cycle reset must take a buffer back out; otherwise the third cycle
+// blocks forever on the send.
+func rulePoolDrain(c *Ctx, rule string) {
+	clear := c.fn("morass", "(*Morass).Clear")
+	recvs := 0
+	for _, b := range clear.Blocks {
+		for _, ins := range b.Instrs {
+			switch x := ins.(type) {
+			case *ssa.UnOp:
+				if x.Op == token.ARROW && loadOfField(x.X, morassPkg, "Morass", "pool") {
+					recvs++
+				}
+			case *ssa.Select:
+				for _, st := range x.States {
+					if st.Dir == types.RecvOnly && loadOfField(st.Chan, morassPkg, "Morass", "pool") {
+						recvs++
+					}
+				}
+			}
+		}
+	}
+	// sends that are not matched inside the cycle: count sends on pool in the package
+	sends := 0
+	for _, f := range srcFuncs(clear.Pkg) {
+		for _, b := range f.Blocks {
+			for _, ins := range b.Instrs {
+				if s, ok := ins.(*ssa.Send); ok && loadOfField(s.Chan, morassPkg, "Morass", "pool") {
+					sends++
+				}
+			}
+		}
+	}
+	key := "morass.(*Morass).Clear/takes-a-buffer-from-pool"
+	switch {
+	case sends == 0:
+		c.triv(rule, key, clear.Pos(), "nothing is ever parked in a pool")
+	case recvs > 0:
+		c.ok(rule, key, clear.Pos(), fmt.Sprintf("Clear receives from the pool (%d send sites park buffers there)", sends))
+	default:
+		c.bad(rule, key, clear.Pos(), fmt.Sprintf("buffers are parked in m.pool at %d sites each cycle but Clear never receives from it: the fixed-capacity pool fills up and, from the third cycle on, the send in Pull (in-memory cycle) or in the chunk writer (Finalise then waits forever) blocks", sends))
+	}
+}
